@@ -399,9 +399,18 @@ def rules(ctx):
     rets = [n for n in walk_no_nested(strip_docstring(ps.node.body)) if isinstance(n, ast.Return)]
     sols = [s_ for s_, v in assignments_to(ps.node, 'sol')]
     okp = bool(rets)
+    def decoded(v):
+        if '%s.convert_solution(' % sn in src(v):
+            return True
+        if isinstance(v, ast.Name):
+            # a list filled element by element with decoded solutions
+            apps = [c for c in calls_in(ps.node, 'append') if is_name(c.func.value, v.id)]
+            inits = [x for s_, x in assignments_to(ps.node, v.id) if isinstance(x, ast.AST)]
+            return bool(apps) and all(len(c.args) == 1 and '%s.convert_solution(' % sn in src(c.args[0]) for c in apps) \
+                and all(isinstance(x, ast.List) and not x.elts for x in inits)
+        return False
     for r in rets:
-        t = src(r.value)
-        okp = okp and ('%s.convert_solution(' % sn in t)
+        okp = okp and decoded(r.value)
     qb = [c for c in calls_in(ps.node, 'solve_bruteforce')]
     okq = len(qb) == 1 and isinstance(qb[0].func.value, ast.Name) and any(
         isinstance(v, ast.Call) and call_name(v) == 'to_qubo' for s_, v in assignments_to(ps.node, qb[0].func.value.id) if isinstance(v, ast.AST))
